@@ -180,9 +180,9 @@ private:
 		ASL_VERIF_FLAG_WRITE_BEGIN();
 		((Context<Func>*)p)->ready = true;
 		ASL_VERIF_FLAG_WRITE_END();
-		for (int i = s.i0; i < s.i1; i += s.s)
+		for (Long i = s.i0; i < s.i1; i += s.s) // 64-bit counter: i + stride can pass INT_MAX for ranges that end there
 		{
-			s.f(i);
+			s.f((int)i);
 		}
 		ASL_VERIF_POINT(ASL_VP_THREAD_EXIT, s.t);
 		s.t->_threadFinished = true;
